@@ -550,12 +550,25 @@ def extract_execute(src):
         raise TranslateError("executeRequest: `const bool reusable = ...;` not found")
     conj = [norm(x) for x in split_top(mm.group(1), "&&")]
     known = {"_config.reuseConnections": "reuseConnections", "!responseRequestsClose(resp)": "notCloseSignalled",
-             "!forceEvict": "notForceEvict", "framing.mode!=BodyMode::CloseDelimited": "notCloseDelimited"}
+             "!forceEvict": "notForceEvict", "framing.mode!=BodyMode::CloseDelimited": "notCloseDelimited",
+             "!residualDataPending(sessionId)": "noResidue"}
     atoms = []
     for cj in conj:
         if cj not in known:
             raise TranslateError("executeRequest: unrecognised conjunct of `reusable`: %r" % cj)
         atoms.append(known[cj])
+    if "noResidue" in atoms:
+        # the probe consumes what it finds, so it may only run for a connection that is otherwise kept: last conjunct of `&&`
+        if atoms[-1] != "noResidue" or atoms.count("noResidue") != 1:
+            raise TranslateError("executeRequest: the residual-data probe must be the last conjunct of `reusable`")
+        try:
+            rb = norm(cxxscan.function_body(src, "residualDataPending"))
+        except ScanError as e:
+            raise TranslateError("residualDataPending: %s" % e)
+        if "_transport->receiveSync(sessionId,&probe,probeLen,std::chrono::milliseconds(0))" not in rb or \
+           not rb.endswith("returnprobeResult.isOk()||probeResult.error().code!=TransportError::Timeout;") or \
+           calls_in(rb, ["receiveSync"]) != ["receiveSync"]:
+            raise TranslateError("residualDataPending: expected one zero-timeout receiveSync and `return isOk() || code != Timeout`")
     fx["reusableAtoms"] = atoms
     im = re.search(r"\bif\s*\(\s*reusable\s*\)", after)
     if not im:
